@@ -147,7 +147,7 @@ pub fn replay_case(case: &Value, idx: u64, seed: u64, rep: &mut Report) -> Resul
                 let m = rng.bytes(mlen);
                 let ad = pick_ad(&mut rng, x >> 20);
                 let kb = dpush.verif_parts().0;
-                let mut c = vec![0u8; mlen + ABYTES];
+                let mut c = vec![0xD2u8; mlen + ABYTES];
                 let r = catch(|| cs::crypto_secretstream_xchacha20poly1305_push(&mut dpush, &mut c, &m, ad.as_deref(), tag));
                 match r {
                     Ok(Ok(())) => {}
@@ -401,7 +401,7 @@ pub fn cmd_trace(args: &[String]) {
                         dpush = o.verif_state().clone();
                         c
                     } else {
-                        let mut c = vec![0u8; mlen + ABYTES];
+                        let mut c = vec![0xD2u8; mlen + ABYTES];
                         cs::crypto_secretstream_xchacha20poly1305_push(&mut dpush, &mut c, &m, ad.as_deref(), tag).unwrap();
                         c
                     };
@@ -721,7 +721,7 @@ pub fn cmd_vectors(args: &[String]) {
         if so_push(&mut sp, &msg, None, 0) != wire { rep.fail("HARNESS: crafted stream vector differs from libsodium", d.clone()); continue; }
         rep.evaluations += 4;
         let (mut dp, _) = init_pair(&key, &header, 1);
-        let mut c = vec![0u8; msg.len() + ABYTES];
+        let mut c = vec![0xD2u8; msg.len() + ABYTES];
         match cs::crypto_secretstream_xchacha20poly1305_push(&mut dp, &mut c, &msg, None, 0) {
             Ok(_) => if c != wire { rep.fail("classic push: ciphertext differs from libsodium on a crafted Poly1305 corner", d.clone()); },
             Err(e) => rep.fail("classic push failed on a crafted Poly1305 corner", json!({"d": d, "err": format!("{:?}", e)})),
